@@ -352,7 +352,7 @@ func inPolyModel(rings [][]P, q P) bool {
 func init() {
 	h.Register(&h.Monitor{
 		ID: "C08",
-		Rule: "closed rings of six shapes (integer grid, half-integer grid, simple star in general position, simple star on the half grid, self-touching grid rings, arbitrary float vertex lists) against boxes on the half grid or in general position; polygons with validated interior holes, multi-polygons, mixed collections, mvt layers. " +
+		Rule: "closed rings of six shapes (integer grid, half-integer grid, simple star in general position, simple star on the half grid, self-touching grid rings, arbitrary float vertex lists) against boxes on the half grid or in general position; polygons with validated interior holes, multi-polygons, mixed collections, mvt layers; boxes of 2^-540..2^-1000 at the origin inside or outside ordinary rings, and boxes whose far sides are moved between just beyond the ring, 1e300, 1.5e308 and infinity. " +
 			"non-trivial = the ring's boundary has a positive-length part inside the closed box or the box centre is inside the ring; distinct = hash of (box, vertices)",
 		MinNontrivial: h.Fixed(10000, 500000),
 		Assumptions: []string{
